@@ -263,3 +263,166 @@ Proof.
   intros n l Hn Hs. rewrite (leader_equal_split n Hn (S (List.length l)) l (Nat.lt_succ_diag_r _) Hs).
   apply equal_split_chunks. exact Hn.
 Qed.
+
+(* ---------- 3. the state transformation on a product term ---------- *)
+Lemma bounds_split_nil bs : bounds_split bs [] = [].
+Proof. induction bs as [|b bs IH]; [reflexivity|exact IH]. Qed.
+
+Lemma den_occ_tstate r r1 r0 bs t p :
+  StronglySorted Z.lt bs -> NoDup (rem t) -> (holds r t = true -> participates r t = true) ->
+  den (rem (occ_tstate r r1 r0 bs t)) (cur (occ_tstate r r1 r0 bs t)) p =
+  if participates r t then (if occ_consistent bs r1 r0 p then den (rem t) (cur t) (collapse r r0 p) else 0)
+  else den (rem t) (cur t) (collapse r r0 p).
+Proof.
+  intros Hs Hnd Hhead. unfold occ_tstate, participates in *. destruct t as [rs cu]; cbn [rem cur] in *.
+  destruct rs as [|x rest].
+  - unfold collapse. symmetry. apply den_upd_notin. intros [].
+  - destruct (String.eqb_spec x r) as [->|Hne]; cbn [rem cur].
+    + apply NoDup_cons_iff in Hnd as [Hnotin _].
+      rewrite (den_bounds_split bs (children cu) rest p r r1 r0 Hs Hnotin).
+      destruct cu as [v|l]; [|reflexivity]. cbn [children den]. destruct (occ_consistent bs r1 r0 p); reflexivity.
+    + unfold collapse. symmetry. apply den_upd_notin. apply index_of_none.
+      unfold holds in Hhead. cbn [rem] in Hhead. destruct (index_of r (x :: rest)); [|reflexivity].
+      specialize (Hhead eq_refl). discriminate.
+Qed.
+
+Definition term_ok (r : rank) (tm : term) : Prop :=
+  forall t, In t tm -> NoDup (rem t) /\ (holds r t = true -> participates r t = true).
+
+Lemma term_den_split_at r r1 r0 bs tm p : StronglySorted Z.lt bs -> term_ok r tm ->
+  term_den (split_term_at r r1 r0 bs tm) p =
+  if existsb (participates r) tm then (if occ_consistent bs r1 r0 p then term_den tm (collapse r r0 p) else 0)
+  else term_den tm (collapse r r0 p).
+Proof.
+  intros Hs. unfold split_term_at. induction tm as [|t tm IH]; intros Hok; [reflexivity|].
+  cbn [map term_den fold_right existsb]. fold (term_den (map (occ_tstate r r1 r0 bs) tm) p). fold (term_den tm (collapse r r0 p)).
+  rewrite IH by (intros t' H'; apply Hok; right; exact H').
+  destruct (Hok t (or_introl eq_refl)) as [Hnd Hhead].
+  rewrite (den_occ_tstate r r1 r0 bs t p Hs Hnd Hhead).
+  destruct (participates r t), (existsb (participates r) tm), (occ_consistent bs r1 r0 p); cbn [orb]; lia.
+Qed.
+
+Lemma body_den_split_at r r1 r0 bs tms p : StronglySorted Z.lt bs ->
+  (forall tm, In tm tms -> term_ok r tm) -> (forall tm, In tm tms -> existsb (participates r) tm = true) ->
+  body_den (map (split_term_at r r1 r0 bs) tms) p = if occ_consistent bs r1 r0 p then body_den tms (collapse r r0 p) else 0.
+Proof.
+  intros Hs Hok Hp. induction tms as [|tm tms IH]; [cbn; destruct (occ_consistent bs r1 r0 p); reflexivity|].
+  cbn [map body_den fold_right]. fold (body_den (map (split_term_at r r1 r0 bs) tms) p). fold (body_den tms (collapse r r0 p)).
+  rewrite IH; [|intros tm' H1; apply Hok; right; exact H1|intros tm' H1; apply Hp; right; exact H1].
+  rewrite (term_den_split_at r r1 r0 bs tm p Hs (Hok tm (or_introl eq_refl))).
+  rewrite (Hp tm (or_introl eq_refl)). destruct (occ_consistent bs r1 r0 p); lia.
+Qed.
+
+(* any increasing boundaries (the followers' view: splitNonUniform at given boundaries), any sum of products in which
+   every tensor holding r has it as its next rank, ANY loop order over r1, r0 and the other ranks *)
+Theorem bounds_nest_sound : forall r r1 r0 bs tms L',
+  StronglySorted Z.lt bs ->
+  (forall tm, In tm tms -> term_ok r tm) -> (forall tm, In tm tms -> existsb (participates r) tm = true) ->
+  wf L' (map (split_term_at r r1 r0 bs) tms) ->
+  forall p, sum_at p (run L' (map (split_term_at r r1 r0 bs) tms)) =
+            if occ_consistent bs r1 r0 p then body_den tms (collapse r r0 p) else 0.
+Proof.
+  intros r r1 r0 bs tms L' Hs Hok Hp Hwf p. rewrite (nest_sound L' _ Hwf p). apply body_den_split_at; assumption.
+Qed.
+
+(* the leader: the tensor at position k of the term, next rank r, current fiber sorted *)
+Definition leader_ok (r : rank) (k : nat) (tm : term) : Prop :=
+  exists ld, nth_error tm k = Some ld /\ participates r ld = true /\ StronglySorted Z.lt (keys (children (cur ld))).
+
+Lemma leader_bounds_sorted r n k tm : leader_ok r k tm -> StronglySorted Z.lt (leader_bounds n k tm).
+Proof.
+  intros [ld [Hk [_ Hs]]]. unfold leader_bounds. rewrite (nth_error_nth tm k dummy_t Hk). apply chunk_starts_sorted. exact Hs.
+Qed.
+
+Lemma leader_participates r k tm : leader_ok r k tm -> existsb (participates r) tm = true.
+Proof.
+  intros [ld [Hk [Hp _]]]. apply existsb_exists. exists ld. split; [eapply nth_error_In; exact Hk|exact Hp].
+Qed.
+
+Lemma term_den_occ_split r r1 r0 n k tm p : term_ok r tm -> leader_ok r k tm ->
+  term_den (occ_split r r1 r0 n k tm) p =
+  if occ_consistent (leader_bounds n k tm) r1 r0 p then term_den tm (collapse r r0 p) else 0.
+Proof.
+  intros Hok Hld. unfold occ_split.
+  rewrite (term_den_split_at r r1 r0 _ tm p (leader_bounds_sorted r n k tm Hld) Hok).
+  rewrite (leader_participates r k tm Hld). reflexivity.
+Qed.
+
+(* occupancy partitioning of one product term with leader position k and chunk size n *)
+Theorem occ_nest_sound : forall r r1 r0 n k tm L',
+  term_ok r tm -> leader_ok r k tm ->
+  wf L' [occ_split r r1 r0 n k tm] ->
+  forall p, sum_at p (run L' [occ_split r r1 r0 n k tm]) =
+            if occ_consistent (leader_bounds n k tm) r1 r0 p then term_den tm (collapse r r0 p) else 0.
+Proof.
+  intros r r1 r0 n k tm L' Hok Hld Hwf p. rewrite (nest_sound L' _ Hwf p).
+  cbn [body_den fold_right]. rewrite Z.add_0_r. apply term_den_occ_split; assumption.
+Qed.
+
+(* the complement: an original point with a non-zero value has a partition (its r-coordinate is a coordinate of the
+   leader's fiber, which is never below the first boundary) *)
+Theorem occ_point_has_partition : forall r n k tm q, leader_ok r k tm ->
+  term_den tm q <> 0 -> part_of (leader_bounds n k tm) (q r) <> None.
+Proof.
+  intros r n k tm q [ld [Hk [Hp Hs]]] Hnz. unfold leader_bounds. rewrite (nth_error_nth tm k dummy_t Hk).
+  apply chunk_starts_covers; [exact Hs|].
+  assert (Hd : den (rem ld) (cur ld) q <> 0).
+  { intros Hz. apply Hnz. apply term_den_zero_if. exists ld. split; [eapply nth_error_In; exact Hk|exact Hz]. }
+  unfold participates in Hp. destruct ld as [rs cu]; cbn [rem cur] in *. destruct rs as [|x rest]; [discriminate|].
+  apply String.eqb_eq in Hp. subst x. destruct cu as [v|l]; [exfalso; apply Hd; reflexivity|].
+  cbn [den] in Hd. cbn [children]. destruct (lookup (q r) l) as [t'|] eqn:El; [|exfalso; apply Hd; reflexivity].
+  eapply lookup_in_keys. exact El.
+Qed.
+
+(* at most one upper coordinate is consistent with a lower coordinate *)
+Theorem occ_consistent_unique : forall bs r1 r0 (p : point) u, r1 <> r0 ->
+  occ_consistent bs r1 r0 (upd p r1 u) = true -> part_of bs (p r0) = Some u.
+Proof.
+  intros bs r1 r0 p u Hne H. unfold occ_consistent, upd in H. rewrite String.eqb_refl in H.
+  destruct (String.eqb_spec r0 r1) as [E|_]; [congruence|].
+  destruct (part_of bs (p r0)) as [b|]; [|discriminate]. apply Z.eqb_eq in H. subst b. reflexivity.
+Qed.
+
+Lemma den_ext : forall rs t p q, (forall x, In x rs -> p x = q x) -> den rs t p = den rs t q.
+Proof.
+  induction rs as [|r rs IH]; intros t p q H; destruct t as [v|l]; cbn [den]; try reflexivity.
+  rewrite (H r (or_introl eq_refl)). destruct (lookup (q r) l); [|reflexivity].
+  apply IH. intros x Hx. apply H. right. exact Hx.
+Qed.
+
+Lemma term_den_ext tm p q : (forall t x, In t tm -> In x (rem t) -> p x = q x) -> term_den tm p = term_den tm q.
+Proof.
+  induction tm as [|t tm IH]; intros H; [reflexivity|].
+  cbn [term_den fold_right]. fold (term_den tm p). fold (term_den tm q).
+  rewrite IH by (intros t' x Ht' Hx; apply (H t' x); [right; exact Ht'|exact Hx]).
+  rewrite (den_ext (rem t) (cur t) p q) by (intros x Hx; apply (H t x); [left; reflexivity|exact Hx]). reflexivity.
+Qed.
+
+(* "no pair separated, none met twice": every original point q with a non-zero value is represented by EXACTLY ONE point
+   of the partitioned space - lower coordinate q r, upper coordinate the partition u of q r; the nest contributes the
+   value of q there and nothing at any other upper coordinate *)
+Theorem occ_represented_once : forall r r1 r0 n k tm L',
+  term_ok r tm -> leader_ok r k tm -> r1 <> r0 ->
+  (forall t, In t tm -> ~ In r1 (rem t) /\ ~ In r0 (rem t)) ->
+  wf L' [occ_split r r1 r0 n k tm] ->
+  forall q, term_den tm q <> 0 ->
+  exists u, part_of (leader_bounds n k tm) (q r) = Some u /\
+    forall u', sum_at (upd (upd q r0 (q r)) r1 u') (run L' [occ_split r r1 r0 n k tm]) =
+               if Z.eqb u' u then term_den tm q else 0.
+Proof.
+  intros r r1 r0 n k tm L' Hok Hld Hne Hfresh Hwf q Hnz.
+  destruct (part_of (leader_bounds n k tm) (q r)) as [u|] eqn:Eu.
+  2:{ exfalso. apply (occ_point_has_partition r n k tm q Hld Hnz). exact Eu. }
+  exists u. split; [reflexivity|]. intros u'.
+  rewrite (occ_nest_sound r r1 r0 n k tm L' Hok Hld Hwf).
+  set (p' := upd (upd q r0 (q r)) r1 u').
+  assert (H0 : p' r0 = q r).
+  { unfold p', upd. destruct (String.eqb_spec r0 r1) as [E|_]; [congruence|]. rewrite String.eqb_refl. reflexivity. }
+  assert (H1 : p' r1 = u') by (unfold p', upd; rewrite String.eqb_refl; reflexivity).
+  unfold occ_consistent. rewrite H0, Eu, H1. rewrite (Z.eqb_sym u u').
+  destruct (u' =? u); [|reflexivity].
+  apply term_den_ext. intros t x Ht Hx. destruct (Hfresh t Ht) as [Hn1 Hn0].
+  unfold collapse. unfold upd at 1. destruct (String.eqb_spec x r) as [->|Hxr]; [exact H0|].
+  unfold p', upd. destruct (String.eqb_spec x r1) as [->|_]; [contradiction|].
+  destruct (String.eqb_spec x r0) as [->|_]; [contradiction|reflexivity].
+Qed.
